@@ -7,12 +7,16 @@ from .. import common as C
 from . import c17
 
 ID = "C18"
-MODULES = ["Helios.Props.CodeCfg", "Helios.Props.C18", "Helios.Props.C17", "Helios.Props.Facts"]
+MODULES = ["Helios.Props.CodeCfg", "Helios.Props.CodeWire", "Helios.Props.C18", "Helios.Props.C17", "Helios.Props.Facts"]
 THEOREMS = ["Helios.Cfg.validate_iff_documented", "Helios.Cfg.validate_first", "Helios.Cfg.accepted_breaker_live",
             "Helios.Cfg.accepted_values_fit",
             # Tie C: Config.Validate and its eleven section validators, translated from the source on every run
             "Helios.CodeTie.Validate_refines", "Helios.CodeTie.Validate_iff_documented",
             "Helios.CodeTie.ruleOf_nonzero_on_code", "Helios.CodeTie.translation_clean_cfg",
+            # ... and the set-up functions construct every component with the accepted numbers
+            "Helios.CodeTie.setupCircuitBreaker_refines", "Helios.CodeTie.setupRateLimiter_refines", "Helios.CodeTie.setupWebSocketPool_refines",
+            "Helios.CodeTie.createHealthChecker_refines", "Helios.CodeTie.cbEff_accepted", "Helios.CodeTie.rlEff_accepted", "Helios.CodeTie.wsEff_accepted",
+            "Helios.CodeTie.translation_clean_wire",
             "Helios.Http.startup_fail_closed",
             "Helios.Facts.strategies_eq", "Helios.Facts.log_enums_eq"]
 
@@ -329,6 +333,9 @@ def check(ctx):
     # what LoadConfig returns is what the file says (values, order, entries, files of any length)
     from .. import cfgfid
     cfgfid.check(ctx, d)
+    # plugin options are judged on their own YAML types, whatever was built before in the same process
+    from . import c14
+    C.Differential(ctx, c14.build(ctx), timeout=300).check(c17.twin_builds(), oracle=c17.oracle, label="plugin-options")
     # string values survive loading byte for byte (secrets and addresses with $, %, #, quotes, unicode)
     vals = []
     for i, (tok, addr, hdr, key) in enumerate([("Adm1n$2024", "http://localhost:8081", "X-Req", "$2y$10$abcdefgh"), ("$uperS3cret", "http://h:1/p?x=$y", "X-${NAME}", "k$1"),
